@@ -35,8 +35,8 @@ from vlib.symx import R, SymReal
 PI_F = Fraction(math.pi)
 TWOPI_F = Fraction(2 * math.pi)
 POLAR = Fraction(1.5707963)
-DEPTH = {"quick": 4, "thorough": 6}
-SPLIT_DEPTH = {"quick": 9, "thorough": 11}
+DEPTH = {"quick": 5, "thorough": 7}
+SPLIT_DEPTH = {"quick": 15, "thorough": 17}
 
 
 def _rv(x):
@@ -117,6 +117,32 @@ def compiled_filter(corners, l0, l1, b0, b1, increasing=True):
     return bool(f(t))
 
 
+def through_factory(corner_rows, l0, l1, b0, b1):
+    """The verdict of the REAL filter factory samplers._latlon_tile_filter for a tile with the given corners (exact
+    rationals or symbolic reals) and a (symbolic) box: the closure it returns runs with the compiled helper replaced by
+    the translated .pyx on a Corners stand-in."""
+    import toasty._libtoasty as lib
+    fn = bbox_fn()
+    seen = {}
+
+    def helper(arr, *box):
+        rows = [[arr[i][0], arr[i][1]] for i in range(4)] if not isinstance(arr, np.ndarray) or arr.dtype == object else [[Fraction(float(arr[i, 0])), Fraction(float(arr[i, 1]))] for i in range(4)]
+        c = Corners(rows)
+        seen["arr"] = c
+        return fn(c, *box)
+
+    saved = lib.tile_intersects_latlon_bbox
+    lib.tile_intersects_latlon_bbox = helper
+    try:
+        flt = tsm._latlon_tile_filter(l0, l1, b0, b1)
+        tile = Tile(Pos(9, 0, 0), tuple((r[0], r[1]) for r in corner_rows), True)
+        n0 = len(symx.ctx().pc)
+        r = flt(tile)
+    finally:
+        lib.tile_intersects_latlon_bbox = saved
+    return bool(r), n0
+
+
 # ------------------------------------------------------------------ real tiles
 
 def real_tiles(depth, planetary):
@@ -190,9 +216,8 @@ def harness_tile(corners, pixels, tier):
         sel = z3.Int("pixel_index")
         ctx.assume(z3.And(sel >= 0, sel < len(pixels)))
         ctx.assume(z3.Or(*[z3.And(sel == n, _in_box(l0, l1, b0, b1, _rv(Fraction(p[0])), _rv(Fraction(p[1])), ks)) for n, p in enumerate(pixels)]))
-        arr = Corners(cf)
-        r = fn(arr, l0, l1, b0, b1)
-        return dict(result=bool(r), box=(l0, l1, b0, b1), sel=sel, writes=arr.writes)
+        r, _n0 = through_factory(corners, l0, l1, b0, b1)
+        return dict(result=r, box=(l0, l1, b0, b1), sel=sel)
     return h
 
 
@@ -234,9 +259,9 @@ def harness_H(tier, part):
         ctx.assume(z3.And(z3.Or(*[pb >= x for x in lat]), z3.Or(*[pb <= x for x in lat]), pb >= b0.t, pb <= b1.t))
         if part == "lon":
             lon = [z3.Real("lon%d" % i) for i in range(4)]
-            lo, hi = (-1, 1) if tier == "quick" else (-1, 2)
+            lo, hi = (-pi, pi) if tier == "quick" else (-tp, 2 * tp)
             for x in lon:
-                ctx.assume(z3.And(x >= lo * tp, x <= hi * tp))
+                ctx.assume(z3.And(x >= lo, x <= hi))
             ctx.assume(z3.And(lat[0] <= lat[1], lat[1] <= lat[2], lat[2] <= lat[3], lat[3] <= _rv(POLAR), lat[0] >= -_rv(POLAR)))
             kr = 4
             ks = [z3.Int("k%d" % i) for i in range(4)]
@@ -253,10 +278,8 @@ def harness_H(tier, part):
         else:
             lon = [z3.RealVal(0)] * 4
             ctx.assume(z3.And(l0.t == -1, l1.t == 1, pl == 0))
-        arr = Corners([[SymReal(lon[i]), SymReal(lat[i])] for i in range(4)])
-        n0 = len(ctx.pc)
-        r = fn(arr, l0, l1, b0, b1)
-        return dict(result=bool(r), box=(l0, l1, b0, b1), corners=[(lon[i], lat[i]) for i in range(4)], pix=(pl, pb), writes=arr.writes,
+        r, n0 = through_factory([[SymReal(lon[i]), SymReal(lat[i])] for i in range(4)], l0, l1, b0, b1)
+        return dict(result=r, box=(l0, l1, b0, b1), corners=[(lon[i], lat[i]) for i in range(4)], pix=(pl, pb),
                     separated=_phase_separation(ctx, n0))
     return h
 
@@ -374,7 +397,8 @@ def job_tiles(run, planetary, depth, part, nparts, mode):
             elif not float_bbox(t.corners, *box):
                 which = "source"
             else:
-                run.error(name, "counterexample box %r / pixel %r is accepted by both the compiled extension and the translated source on doubles" % (box, pix))
+                run.ob("bbox-%s.rounding[%s]" % (mode, pos), "inconclusive", "E4:symx", "a rejecting path over the reals (box %r, pixel %r) is accepted by both the compiled extension and the translated source "
+                       "on doubles: real-vs-double boundary, not reported" % (box, pix))
                 continue
             text = REPLAY_TILE % dict(verif=core.VERIF, planetary=planetary, pos=pos, box=box, pixel=pix, which=which)
             what = ("%s tile %r has the pixel centre %r%s inside the box lon [%r, %r] lat [%r, %r] but the bounding-box filter rejects it%s"
@@ -398,7 +422,7 @@ def split_H(tier, seed, part="lon"):
         if isinstance(out, symx.PathCap):
             prefixes.append([(bool(t), False) for t, _p in ctx.decisions])
         else:
-            early.append((out["result"], [(bool(t), False) for t, _p in ctx.decisions]))
+            early.append((out["result"] and out["separated"], [(bool(t), False) for t, _p in ctx.decisions]))
     return prefixes, early, stats
 
 
@@ -429,3 +453,643 @@ def job_H(run, tier, part, prefixes, label):
                                                queries=stats.get("queries", 0), solver_s=round(stats.get("solver_s", 0.0), 2))
     run.queries += stats.get("queries", 0)
     run.solver_s += stats.get("solver_s", 0.0)
+
+
+# ------------------------------------------------------------------ the filter closure does not modify the tile
+
+def harness_any_box(corners, tier):
+    fn = bbox_fn()
+    cf = [[Fraction(float(a)), Fraction(float(b))] for a, b in corners]
+
+    def h(ctx):
+        l0, l1, b0, b1 = _box(ctx, tier)
+        arr = Corners(cf)
+        r = fn(arr, l0, l1, b0, b1)
+        return dict(result=bool(r), box=(l0, l1, b0, b1), writes=arr.writes)
+    return h
+
+
+def filter_changes_tile(planetary, pos, box, which="compiled"):
+    """Replay: does running the filter (or the current .pyx source on the very array the closure would pass) change
+    the tile's corners?"""
+    t = tile_at(planetary, pos) if pos[0] > 1 else [x for x in tt._create_level1_tiles(ToastCoordinateSystem.PLANETARY if planetary else ToastCoordinateSystem.ASTRONOMICAL) if tuple(x.pos) == tuple(pos)][0]
+    snap = [tuple(float(v) for v in c) for c in t.corners]
+    if which == "compiled":
+        tsm._latlon_tile_filter(*box)(t)
+    else:
+        mod, _py = decy.load()
+        mod.tile_intersects_latlon_bbox(np.asarray(t.corners), *box)
+    after = [tuple(float(v) for v in c) for c in t.corners]
+    print("corners before", snap)
+    print("corners after ", after)
+    return snap != after
+
+
+def no_write_check(depth, tier="quick"):
+    """Real closure + real compiled function on real tiles from every construction route: the tile's corners have the
+    same values afterwards.  Where np.asarray(tile.corners) hands the tile's OWN memory to the compiled function (no
+    copy), the translated function is executed on that tile with a SYMBOLIC box: no path may write to its argument.
+    -> (n_tiles, n_shared, n_paths, problems[(pos, text, planetary, box, which)])"""
+    import toasty._libtoasty as lib
+    seen = []
+    real = lib.tile_intersects_latlon_bbox
+
+    def spy(arr, *a):
+        seen.append(arr)
+        return real(arr, *a)
+
+    problems = []
+    n = n_shared = n_paths = 0
+    lib.tile_intersects_latlon_bbox = spy
+    try:
+        flt = tsm._latlon_tile_filter(0.3, 2.9, -0.4, 0.9)
+        for planetary in (False, True):
+            cs = ToastCoordinateSystem.PLANETARY if planetary else ToastCoordinateSystem.ASTRONOMICAL
+            routes = list(real_tiles(depth, planetary)) + [tt.create_single_tile(Pos(3, 5, 2), cs)] + list(tt.generate_tiles(2, bottom_only=False, coordsys=cs)) + \
+                list(tt.generate_tiles_filtered(2, lambda t: True, bottom_only=False, coordsys=cs))
+            for t in routes:
+                n += 1
+                snap = [tuple(float(v) for v in c) for c in t.corners]
+                del seen[:]
+                flt(t)
+                after = [tuple(float(v) for v in c) for c in t.corners]
+                pos = tuple(int(v) for v in t.pos)
+                if snap != after:
+                    problems.append((pos, "corners changed from %r to %r" % (snap, after), planetary, (0.3, 2.9, -0.4, 0.9), "compiled"))
+                    continue
+                owned = [c for c in [t.corners] + list(t.corners) if isinstance(c, np.ndarray)]
+                if any(np.shares_memory(arr, o) for arr in seen for o in owned):
+                    n_shared += 1
+                    for ctx, out in symx.explore(harness_any_box(snap, tier), stats={}, max_paths=2000, timeout_ms=60000):
+                        n_paths += 1
+                        if isinstance(out, dict) and out["writes"]:
+                            r, m = ctx.reachable(True)
+                            if r != "sat":
+                                continue
+                            box = tuple(_fval(m, x) for x in out["box"])
+                            lib.tile_intersects_latlon_bbox = real
+                            try:
+                                which = "compiled" if filter_changes_tile(planetary, pos, box, "compiled") else ("source" if filter_changes_tile(planetary, pos, box, "source") else None)
+                            finally:
+                                lib.tile_intersects_latlon_bbox = spy
+                            if which:
+                                problems.append((pos, "the filter for the box %r sorts the tile's own corner array in place" % (box,), planetary, box, which))
+                                break
+    finally:
+        lib.tile_intersects_latlon_bbox = real
+    return n, n_shared, n_paths, problems
+
+
+# ------------------------------------------------------------------ check
+
+def check(run):
+    tier = run.tier
+    depth = DEPTH[tier]
+    mod, _py = decy.load()
+    run.uses("toasty/_libtoasty.pyx:_tile_intersects_latlon_bbox (decythonised)", "toasty/_libtoasty.pyx:_order_pair_1d (decythonised)", tsm._latlon_tile_filter,
+             tt._div4, tt._create_level1_tiles, tt.toast_tile_get_coords)
+    val = decy.validate(mod, seed=run.seed)
+    run.ob("decythonised-module-matches-compiled-extension", "confirmed" if val["bbox_disagreements"] == 0 else "inconclusive", "E4:translation-validation",
+           "%s (the compiled extension cannot be rebuilt here: no Cython; a disagreement means the .so is stale w.r.t. the .pyx)" % val)
+    run.replays += 1
+    if Fraction(float(sym_module().TWOPI)) != 2 * PI_F:
+        run.ob("twopi-is-2pi", "inconclusive", "", "the TWOPI of the .pyx is not twice numpy's pi")
+    run.bound(real_tiles="every tile of levels 1..%d, both coordinate systems (%d tiles); pixel centres: grid corners, centre, extreme latitude / longitude of the real 256x256 grid; "
+              "descendant pixel centres: extreme ones two levels deeper" % (depth, 2 * sum(4 ** k for k in range(1, depth + 1))),
+              box="symbolic: lon_min in [-%d, %d] * 2pi, width in (0, 4pi], latitudes in [-pi, pi]; pixel longitude + 2 pi k, |k| <= 4" % ((2, 2) if tier == "quick" else (3, 3)),
+              H_corners="symbolic corner longitudes in %s, every order and wrap; latitudes every order (polar tiles included)" % ("[-pi, pi] (what atan2 in _mid produces)" if tier == "quick" else "[-2pi, 4pi]"),
+              unwinding="loops are executed until they exit; a path needing more than 400 decisions is reported, not cut")
+    run.assume("reals for doubles (every constant is the exact rational value of the double in the source)",
+               "H (only for bbox-H): unwrapped corner longitudes of a non-polar tile lie in an arc shorter than pi whose ends are corners; a pixel centre is strictly inside that arc and within the corner latitude range",
+               "the latitude part and the longitude part of the test are independent (checked on every explored path: no latitude in a branch condition once a longitude has been tested)")
+    run.outside("pixel centres other than the selected ones for the real-tile obligations", "tiles deeper than the stated level for the real-tile obligations (bbox-H covers every depth under H)",
+                "WcsSampler._image_bounds for non-affine projections (wcslib)", "float rounding inside the compiled loop (+= TWOPI)")
+    only = getattr(run, "only", None) or []
+
+    def want(tag):
+        return not only or any(o in tag for o in only)
+
+    jobs = []
+    nparts = 8
+    if want("bbox-tiles"):
+        jobs += [("tiles", pl, depth, k, nparts, "own") for pl in (False, True) for k in range(nparts)]
+    if want("ancestors"):
+        jobs += [("tiles", pl, max(1, depth - 1), k, nparts, "desc") for pl in (False, True) for k in range(nparts)]
+    hjobs = []
+    if want("bbox-H"):
+        for part in ("lat", "lon"):
+            prefixes, early, st = split_H(tier, run.seed, part)
+            run.queries += st.get("queries", 0)
+            # paths that ended before the split depth are explored paths of this part; rejecting ones are re-run in a
+            # job (which extracts the counterexample)
+            run.extra.setdefault("H", {})["%s-split" % part] = dict(part=part, paths=len([1 for res, _p in early if res]), rejecting=0, caps=0, unseparated=0, cex=None,
+                                                                     wall_s=0.0, queries=st.get("queries", 0), solver_s=round(st.get("solver_s", 0.0), 2))
+            if any(not res for res, _p in early):
+                prefixes = prefixes + [p for res, p in early if not res]
+            chunks = [prefixes[i::15] for i in range(15)] if part == "lon" else [prefixes]
+            hjobs += [("H", tier, part, ch, "%s-%d" % (part, i)) for i, ch in enumerate(chunks) if ch]
+    if want("chunks"):
+        g = GRIDS[tier]
+        jobs += [("chunks", g[i::4]) for i in range(4) if g[i::4]]
+    if want("image-bounds"):
+        sz = SIZES[tier]
+        heavy = [x for x in sz if x[2] % 90 != 0]
+        light = [x for x in sz if x[2] % 90 == 0]
+        jobs += [("bounds", [x]) for x in heavy] + [("bounds", light[i::3]) for i in range(3) if light[i::3]]
+    # longest first
+    order = {"H": 0, "bounds": 1, "tiles": 2, "chunks": 3}
+    alljobs = sorted(hjobs + jobs, key=lambda j: order[j[0]])
+    core.run_parallel(run, __name__, "job_any", alljobs, timeout_s=1500 if tier == "quick" else 20000)
+    if want("bbox-H"):
+        H = run.extra.get("H", {})
+        for part in ("lat", "lon"):
+            recs = [v for v in H.values() if v["part"] == part]
+            paths = sum(v["paths"] for v in recs)
+            rej = sum(v["rejecting"] for v in recs)
+            caps = sum(v["caps"] for v in recs)
+            unsep = sum(v["unseparated"] for v in recs)
+            nm = "bbox-H[%s]" % part
+            det = "%d paths over %d partitions; %d rejecting, %d over the decision cap, %d without lat/lon separation" % (paths, len(recs), rej, caps, unsep)
+            if not recs or len(recs) < len([j for j in hjobs if j[2] == part]) + 1:
+                run.ob(nm, "inconclusive", "E4:symx", "a partition did not finish: " + det)
+            elif rej == 0 and caps == 0 and unsep == 0:
+                run.ob(nm, "unsat", "E4:symx", det + ": under H the test accepts every tile with a pixel centre in the box")
+            elif rej:
+                cex = [v["cex"] for v in recs if v["cex"]][:1]
+                real = [v for v in run.violations if v[1].startswith(SIG_TILE)]
+                run.ob(nm, "violated" if real else "inconclusive", "E4:symx",
+                       det + "; rejected H-configuration %r — %s" % (cex, "real tiles reproduce a rejection (reported above)" if real else
+                                                                    "NOT reported as a violation: no real TOAST tile to level %d reproduces it (H is an assumption about tiles; the function may rely on more than H)" % depth))
+            else:
+                run.ob(nm, "inconclusive", "E4:symx", det)
+    # no write
+    if want("no-write"):
+        n, n_shared, n_paths, problems = no_write_check(min(depth, 4), tier)
+        if problems:
+            pos, text, planetary, box, which = problems[0]
+            run.violation("no-write", "samplers.py:_latlon_tile_filter:modifies-tile", "the filter modifies the tile it inspects: %s tile %r: %s%s" % (
+                "planetary" if planetary else "astronomical", pos, text, "" if which == "compiled" else " — on the CURRENT toasty/_libtoasty.pyx (the compiled extension here is stale)"),
+                          "import sys\nsys.path.insert(0, %r)\nimport props.C07 as P\nsys.exit(1 if P.filter_changes_tile(%r, %r, %r, %r) else 0)\n" % (core.VERIF, planetary, pos, box, which), "E4:symx+execution")
+        else:
+            run.ob("no-write", "unsat", "E4:symx+execution", "%d real tiles from every construction route keep their corner values; %d of them hand their own memory to the compiled function "
+                   "(np.asarray makes no copy): for those the translated function was executed with a symbolic box, %d paths, none writes to its argument" % (n, n_shared, n_paths), queries=n_paths)
+        run.replays += 1
+
+
+# ------------------------------------------------------------------ chunked plate-carree maps
+
+class V:
+    """One element of a request array as the sampler closure sees it (arithmetic, comparisons, np.round, astype,
+    boolean-mask selection), carrying a symx scalar."""
+
+    def __init__(self, v):
+        self.v = v
+
+    @staticmethod
+    def _u(o):
+        return o.v if isinstance(o, V) else o
+
+    def __add__(s, o): return V(s.v + V._u(o))
+    def __radd__(s, o): return V(V._u(o) + s.v)
+    def __sub__(s, o): return V(s.v - V._u(o))
+    def __rsub__(s, o): return V(V._u(o) - s.v)
+    def __mul__(s, o): return V(s.v * V._u(o))
+    def __rmul__(s, o): return V(V._u(o) * s.v)
+    def __truediv__(s, o): return V(s.v / V._u(o))
+    def __mod__(s, o): return V(s.v % V._u(o))
+    def __neg__(s): return V(-s.v)
+    def __lt__(s, o): return V(s.v < V._u(o))
+    def __le__(s, o): return V(s.v <= V._u(o))
+    def __gt__(s, o): return V(s.v > V._u(o))
+    def __ge__(s, o): return V(s.v >= V._u(o))
+    def __and__(s, o): return V(s.v & V._u(o))
+    __rand__ = __and__
+    def __or__(s, o): return V(s.v | V._u(o))
+    def __invert__(s): return V(~s.v)
+
+    def round(s, decimals=0, out=None):
+        from vlib import symnp
+        return V(symnp.round_(s.v))
+
+    def astype(s, dt):
+        return V(s.v.astype(dt)) if hasattr(s.v, "astype") else s
+
+    def __getitem__(s, mask):
+        if not isinstance(mask, V) or not isinstance(mask.v, symx.SymBool):
+            raise HarnessError("the chunk sampler selects with something else than a boolean mask: %r" % (mask,))
+        return Sel(s.v, mask.v)
+
+
+class Sel:
+    def __init__(self, v, cond):
+        self.v, self.cond = v, cond
+
+
+class _NPShim:
+    def __init__(self, bi, bj):
+        self._b = (bi, bj)
+
+    def indices(self, shape):
+        if tuple(shape) != (256, 256):
+            raise HarnessError("chunk sampler asks for indices%r" % (shape,))
+        return V(self._b[0]), V(self._b[1])
+
+    def __getattr__(self, name):
+        return getattr(np, name)
+
+
+class FakeChunked:
+    """The real chunk-grid arithmetic of ChunkedJPEG2000Reader over a stand-in file (shape and tile shape only)."""
+
+    def __new__(cls, gh, gw, th, tw):
+        import toasty.jpeg2000 as tj
+
+        class R(tj.ChunkedJPEG2000Reader):
+            def chunk_data(self, ichunk):
+                x0, y0, w, h = self.chunk_spec(ichunk)
+                return type("Data", (), {"shape": (h, w)})()
+
+        r = object.__new__(R)
+        r._jp2 = type("J", (), {"shape": (gh, gw)})()
+        r._tile_shape = (th, tw)
+        r._fake_data = True
+        return r
+
+
+def chunk_partition_problems(img):
+    """The chunk rectangles tile the image: every pixel in exactly one chunk (plain integer computation)."""
+    gh, gw = img.shape[:2]
+    cover = np.zeros((gh, gw), dtype=int)
+    for k in range(img.n_chunks):
+        x, y, w, h = img.chunk_spec(k)
+        if w <= 0 or h <= 0 or x < 0 or y < 0 or x + w > gw or y + h > gh:
+            return "chunk %d = %r leaves the %dx%d image" % (k, (x, y, w, h), gw, gh)
+        cover[y:y + h, x:x + w] += 1
+    if not (cover == 1).all():
+        return "pixels covered %r times" % (sorted(set(cover.flatten().tolist())),)
+    return None
+
+
+def chunk_case(gh, gw, th, tw):
+    """-> (n_queries, problems) for one grid: bounds handed to the filter, and per chunk: for EVERY (lon, lat) strictly
+    inside a map cell (gx, gy): the chunk sampler accepts the point iff the cell belongs to the chunk, and then reads
+    chunk pixel (gy - cy, gx - cx)."""
+    import toasty.image as ti
+    img = FakeChunked(gh, gw, th, tw)
+    problems = []
+    p = chunk_partition_problems(img)
+    if p:
+        return 0, [("partition", p)]
+    smp = tsm.ChunkedPlateCarreeSampler(img, planetary=True)
+    nq = 0
+    EPS = z3.Q(1, 10 ** 9)
+    wdt = _rv(TWOPI_F) / gw
+    hgt = _rv(PI_F) / gh
+    for k in range(img.n_chunks):
+        cx, cy, cw, ch = img.chunk_spec(k)
+        # the box handed to the filter factory
+        got = []
+        saved = tsm._latlon_tile_filter
+        tsm._latlon_tile_filter = lambda *a: got.append(a) or (lambda tile: True)
+        try:
+            smp.filter(k)
+        finally:
+            tsm._latlon_tile_filter = saved
+        want = (-math.pi + cx * 2 * math.pi / gw, -math.pi + (cx + cw) * 2 * math.pi / gw, math.pi / 2 - (cy + ch) * math.pi / gh, math.pi / 2 - cy * math.pi / gh)
+        if len(got) != 1 or len(got[0]) != 4 or any(abs(float(a) - b) > 1e-9 for a, b in zip(got[0], want)):
+            problems.append(("filter-box", "chunk %d %r of a %dx%d map: filter box %r, chunk rectangle %r" % (k, (cx, cy, cw, ch), gw, gh, got, want)))
+            continue
+        res = {}
+
+        def h(ctx, k=k, cx=cx, cy=cy, cw=cw, ch=ch):
+            lon, lat = z3.Reals("req_lon req_lat")
+            bi, bj, gx, gy, m = z3.Ints("bi bj gx gy turn")
+            ctx.assume(z3.And(lat >= -_rv(PI_F) / 2, lat <= _rv(PI_F) / 2, lon >= -4 * _rv(TWOPI_F), lon <= 4 * _rv(TWOPI_F), bi >= 0, bi < 256, bj >= 0, bj < 256,
+                              gx >= 0, gx < gw, gy >= 0, gy < gh, m >= -5, m <= 5))
+            # (lon, lat) strictly inside map cell (gx, gy), longitude modulo 2 pi
+            l0 = lon - _rv(TWOPI_F) * z3.ToReal(m)
+            ctx.assume(z3.And(l0 > -_rv(PI_F) + z3.ToReal(gx) * wdt + EPS, l0 < -_rv(PI_F) + z3.ToReal(gx + 1) * wdt - EPS,
+                              lat < _rv(PI_F) / 2 - z3.ToReal(gy) * hgt - EPS, lat > _rv(PI_F) / 2 - z3.ToReal(gy + 1) * hgt + EPS))
+            calls = []
+
+            class FakeImg:
+                class mode:
+                    @staticmethod
+                    def make_maskable_buffer(hh, ww):
+                        return type("Buf", (), {"asarray": lambda self: "BUFFER"})()
+
+                @classmethod
+                def from_array(cls, data):
+                    return cls()
+
+                def fill_into_maskable_buffer(self, buffer, iy, ix, biy, bix):
+                    calls.append((iy, ix, biy, bix))
+
+            saved_img, saved_np = ti.Image, tsm.np
+            ti.Image = FakeImg
+            tsm.np = _NPShim(symx.SymInt(bi), symx.SymInt(bj))
+            try:
+                fn = smp.sampler(k)
+                out = fn(V(SymReal(lon)), V(SymReal(lat)))
+            finally:
+                ti.Image, tsm.np = saved_img, saved_np
+            if out != "BUFFER" or len(calls) != 1 or not all(isinstance(c, Sel) for c in calls[0]):
+                raise HarnessError("chunk sampler does not fill its buffer through one masked fill_into_maskable_buffer call")
+            iy, ix, biy, bix = calls[0]
+            cond = iy.cond
+            if not all(z3.eq(c.cond.t, cond.t) for c in calls[0]):
+                raise HarnessError("chunk sampler selects its index arrays with different masks")
+            inchunk = z3.And(gx >= cx, gx < cx + cw, gy >= cy, gy < cy + ch)
+            claim = z3.And(cond.t == inchunk,
+                           z3.Implies(cond.t, z3.And(symx.I(ix.v) == gx - cx, symx.I(iy.v) == gy - cy, symx.I(biy.v) == bi, symx.I(bix.v) == bj)))
+            r, mdl = ctx.prove(claim)
+            rr, _m = ctx.reachable(inchunk)
+            return r, rr, (None if mdl is None else dict(lon=_fval(mdl, lon), lat=_fval(mdl, lat), cell=(_fval(mdl, gx), _fval(mdl, gy))))
+
+        reach = False
+        for ctx, out in symx.explore(h, stats=res, max_paths=64, timeout_ms=60000):
+            nq += 2
+            if not isinstance(out, tuple):
+                problems.append(("chunk", "exploration ended with %r" % (out,)))
+                continue
+            r, rr, cex = out
+            reach = reach or rr == "sat"
+            if r == "sat":
+                problems.append(("chunk-sampler", dict(grid=(gh, gw, th, tw), chunk=k, spec=(cx, cy, cw, ch), point=cex)))
+            elif r != "unsat":
+                problems.append(("unknown", "chunk %d: solver %s" % (k, r)))
+        if not reach:
+            problems.append(("unknown", "chunk %d: no path on which a cell of the chunk is requested (vacuous)" % k))
+    return nq, problems
+
+
+def chunk_point_replay(gh, gw, th, tw, k, lon, lat):
+    """Real sampler closure (real numpy, real Image) on a chunk whose pixels carry their global index: the value
+    returned for (lon, lat) must be the map cell containing the point iff that cell is in the chunk.  -> True if wrong."""
+    img = FakeChunked(gh, gw, th, tw)
+    cx, cy, cw, ch = img.chunk_spec(k)
+    glob = (np.arange(gh * gw, dtype=np.float32) + 1).reshape((gh, gw))
+    img.chunk_data = lambda ichunk: glob[cy:cy + ch, cx:cx + cw].copy()
+    smp = tsm.ChunkedPlateCarreeSampler(img, planetary=True)
+    fn = smp.sampler(k)
+    lons = np.full((256, 256), float(lon))
+    lats = np.full((256, 256), float(lat))
+    out = fn(lons, lats)
+    got = out[7, 9]
+    ln = (lon + math.pi) % (2 * math.pi) - math.pi
+    gx = min(int((ln + math.pi) / (2 * math.pi / gw)), gw - 1)
+    gy = min(int((math.pi / 2 - lat) / (math.pi / gh)), gh - 1)
+    inchunk = cx <= gx < cx + cw and cy <= gy < cy + ch
+    want = glob[gy, gx] if inchunk else None
+    print("grid", (gh, gw, th, tw), "chunk", k, (cx, cy, cw, ch), "point", (lon, lat), "cell", (gx, gy), "in chunk", inchunk, "sampled", got, "expected", want)
+    if inchunk:
+        return not (got == want)
+    return not np.isnan(got)
+
+
+GRIDS = {"quick": [(1, 1, 1, 1), (2, 4, 1, 2), (3, 5, 2, 2), (4, 8, 4, 3), (3, 7, 1, 7), (5, 6, 2, 4)],
+         "thorough": [(gh, gw, th, tw) for gh in (1, 2, 3, 5) for gw in (1, 2, 3, 5, 8) for th in (1, 2, 5) for tw in (1, 3, 8) if th <= max(gh, 1) + 4 and tw <= gw + 7]}
+
+
+def job_chunks(run, grids):
+    nq = 0
+    t0 = time.time()
+    bad = []
+    for g in grids:
+        q, pr = chunk_case(*g)
+        nq += q
+        bad += [(g, p) for p in pr]
+    for g, (kind, info) in bad[:1]:
+        nm = "chunks%r" % (g,)
+        if kind == "chunk-sampler":
+            pt = info["point"]
+            wrong = chunk_point_replay(*g, info["chunk"], pt["lon"], pt["lat"])
+            if wrong:
+                run.violation(nm, "samplers.py:ChunkedPlateCarreeSampler:wrong-cell", "chunk %d %r of the %dx%d map (tiles %dx%d): the point lon=%r lat=%r in map cell %r is %s" % (
+                    info["chunk"], info["spec"], g[1], g[0], g[3], g[2], pt["lon"], pt["lat"], pt["cell"], "not sampled from that cell / not left to the chunk that owns it"),
+                              "import sys\nsys.path.insert(0, %r)\nimport props.C07 as P\nsys.exit(1 if P.chunk_point_replay(%r, %r, %r, %r, %r, %r, %r) else 0)\n" % (core.VERIF, g[0], g[1], g[2], g[3], info["chunk"], pt["lon"], pt["lat"]),
+                              "E2:symx")
+            else:
+                run.error(nm, "chunk sampler counterexample %r does not reproduce on the real closure" % (info,))
+        elif kind in ("filter-box", "partition"):
+            run.violation(nm, "samplers.py:ChunkedPlateCarreeSampler:%s" % kind, str(info),
+                          "import sys\nsys.path.insert(0, %r)\nimport props.C07 as P\nq, pr = P.chunk_case(%r, %r, %r, %r)\nprint(pr[:2])\nsys.exit(1 if pr else 0)\n" % ((core.VERIF,) + tuple(g)), "execution")
+        else:
+            run.ob(nm, "inconclusive", "E2:symx", str(info))
+    if not bad:
+        run.ob("chunks[%d grids]" % len(grids), "unsat", "E2:symx", "grids (rows, cols, tile rows, tile cols) %r: chunk rectangles tile the map; filter box = chunk rectangle; for every (lon, lat) inside a map cell the chunk "
+               "sampler accepts it iff the cell is the chunk's and reads that cell; %.0fs" % (grids, time.time() - t0), queries=nq, solver_s=time.time() - t0)
+
+
+# ------------------------------------------------------------------ WcsSampler._image_bounds with an affine (CAR) WCS
+
+class _NPObj:
+    """numpy for toasty.samplers during the symbolic run: float work arrays become object arrays (so that they can hold
+    symbolic reals) and argmin / argmax of an array holding symbolic reals is decided by the solver (first extreme
+    element, as numpy)."""
+
+    def __getattr__(self, name):
+        return getattr(np, name)
+
+    def empty(self, shape, dtype=None):
+        if dtype is None or dtype is float:
+            return np.empty(shape, dtype=object)
+        return np.empty(shape, dtype=dtype)
+
+    def zeros(self, shape, dtype=None):
+        a = np.zeros(shape, dtype=dtype) if dtype is not None else np.zeros(shape)
+        return a
+
+    def _arg(self, arr, maximum):
+        flat = list(np.asarray(arr, dtype=object).flatten())
+        if not any(symx.is_sym(x) for x in flat):
+            vals = np.array([float(x) for x in flat])
+            return int(np.argmax(vals) if maximum else np.argmin(vals))
+        c = symx.ctx()
+        terms = [R(x) for x in flat]
+        for _ in range(len(terms) + 1):
+            r, m = c._check()
+            if r != "sat":
+                raise symx.PathAbort()
+            vals = [m.eval(t, model_completion=True) for t in terms]
+            fr = [Fraction(v.numerator_as_long(), v.denominator_as_long()) for v in vals]
+            k = max(range(len(fr)), key=lambda i: (fr[i], -i)) if maximum else min(range(len(fr)), key=lambda i: (fr[i], i))
+            if maximum:
+                cond = z3.And(*([terms[k] >= t for t in terms[k + 1:]] + [terms[k] > t for t in terms[:k]]))
+            else:
+                cond = z3.And(*([terms[k] <= t for t in terms[k + 1:]] + [terms[k] < t for t in terms[:k]]))
+            if c.branch(cond):
+                return k
+        raise symx.PathCap("argmin/argmax: too many candidate positions")
+
+    def argmax(self, arr):
+        return self._arg(arr, True)
+
+    def argmin(self, arr):
+        return self._arg(arr, False)
+
+
+class AffineWCS:
+    """world = M . (x, y) + t in degrees, FITS pixel coordinates (origin 1): what a plate-carree (CAR) WCS referenced
+    on the equator is."""
+
+    def __init__(self, a, b, c, d, e, f):
+        self.co = (a, b, c, d, e, f)
+
+    def wcs_pix2world(self, pix, origin):
+        if origin != 1:
+            raise HarnessError("_image_bounds calls wcs_pix2world with origin %r" % (origin,))
+        a, b, c, d, e, f = self.co
+        pix = np.asarray(pix, dtype=object)
+        out = np.empty((pix.shape[0], 2), dtype=object)
+        for i in range(pix.shape[0]):
+            # the ideal rational behind the double produced by np.linspace (differs by < 1e-15 pixel): small
+            # denominators keep the linear arithmetic cheap
+            x, y = Fraction(float(pix[i, 0])).limit_denominator(10 ** 7), Fraction(float(pix[i, 1])).limit_denominator(10 ** 7)
+            out[i, 0] = a * x + b * y + c
+            out[i, 1] = d * x + e * y + f
+        return out
+
+
+ROTATIONS = {0: (1, 0, 1), 90: (0, 1, 1), 180: (-1, 0, 1), 270: (0, -1, 1),
+             37: (4, 3, 5), 23: (12, 5, 13), 127: (-3, 4, 5), 323: (4, -3, 5), 209: (-15, -8, 17)}
+
+
+def _rot(angle_deg):
+    """Exact small rationals (cos, sin) of the rotation: multiples of 90 degrees and Pythagorean angles (the label is
+    the angle rounded to a degree) — small denominators keep the linear arithmetic cheap."""
+    c, s_, h = ROTATIONS[angle_deg]
+    return Fraction(c, h), Fraction(s_, h)
+
+
+def harness_bounds(naxis1, naxis2, angle_deg):
+    """CD = R(angle) . diag(s1, s2) with SYMBOLIC non-zero scales (either sign: both parities) and symbolic reference
+    values; the angle is concrete (the map stays linear in the unknowns and invertible)."""
+    D2R = Fraction(math.pi / 180)
+    cs, sn = _rot(angle_deg)
+
+    def h(ctx):
+        s1, s2, c, f = [SymReal(z3.Real(n)) for n in ("scale1", "scale2", "lon0", "lat0")]
+        ctx.assume(z3.And(s1.t != 0, s2.t != 0))
+        a, b, d, e = s1 * cs, s2 * (-sn), s1 * sn, s2 * cs
+        co = (a, b, c, d, e, f)
+        xs = [Fraction(1, 2), Fraction(naxis1) + Fraction(1, 2)]
+        ys = [Fraction(1, 2), Fraction(naxis2) + Fraction(1, 2)]
+        corners = [(x, y) for x in xs for y in ys]
+        for x, y in corners:
+            ctx.assume(z3.And(R(a * x + b * y + c) >= 5, R(a * x + b * y + c) <= 355, R(d * x + e * y + f) >= -85, R(d * x + e * y + f) <= 85))
+        # the footprint spans less than 170 degrees of longitude (no wrap between neighbouring samples)
+        for i, (x, y) in enumerate(corners):
+            for (x2, y2) in corners[i + 1:]:
+                dl = R(a * (x - x2) + b * (y - y2))
+                ctx.assume(z3.And(dl <= 170, dl >= -170))
+        smp = tsm.WcsSampler(np.zeros((naxis2, naxis1), dtype=np.float32), AffineWCS(*co))
+        saved = tsm.np
+        tsm.np = _NPObj()
+        try:
+            lon_min, lon_max, lat_min, lat_max = smp._image_bounds()
+        finally:
+            tsm.np = saved
+        claims = []
+        for x, y in corners:
+            wl = R(a * x + b * y + c) * _rv(D2R)
+            wb = R(d * x + e * y + f) * _rv(D2R)
+            claims.append(z3.And(R(lon_min) <= wl, wl <= R(lon_max), R(lat_min) <= wb, wb <= R(lat_max)))
+        r, m = ctx.prove(z3.And(*claims))
+        cex = None
+        if r == "sat":
+            # prefer a realistic scale (the violation does not depend on it)
+            r2, m2 = ctx.reachable(z3.And(z3.Not(z3.And(*claims)), z3.Or(s1.t >= z3.Q(1, 1000), s1.t <= -z3.Q(1, 1000)), z3.Or(s2.t >= z3.Q(1, 1000), s2.t <= -z3.Q(1, 1000))))
+            mm = m2 if r2 == "sat" else m
+            cex = [_fval(mm, R(x)) for x in co]
+        return r, cex
+    return h
+
+
+def real_car_wcs(co):
+    """An astropy CAR WCS realising world = M (x, y) + t (degrees)."""
+    from astropy.wcs import WCS
+    a, b, c, d, e, f = [float(v) for v in co]
+    M = np.array([[a, b], [d, e]])
+    # native = M (pix - crpix); lon = crval1 + native_x; lat = native_y  (CAR, reference latitude 0)
+    crval1 = 180.0
+    crpix = np.linalg.solve(M, np.array([crval1 - c, -f]))
+    w = WCS(naxis=2)
+    w.wcs.ctype = ["RA---CAR", "DEC--CAR"]
+    w.wcs.crval = [crval1, 0.0]
+    w.wcs.crpix = [float(crpix[0]), float(crpix[1])]
+    w.wcs.cd = M
+    w.wcs.set()
+    return w
+
+
+def bounds_replay(naxis1, naxis2, co):
+    """Real WcsSampler._image_bounds with a real astropy WCS: by how much (radians) does a footprint corner stick out of
+    the returned box?  -> (excess, bounds, corner)"""
+    w = real_car_wcs(co)
+    smp = tsm.WcsSampler(np.zeros((naxis2, naxis1), dtype=np.float32), w)
+    lon_min, lon_max, lat_min, lat_max = [float(v) for v in smp._image_bounds()]
+    worst = (0.0, None)
+    for x in (0.5, naxis1 + 0.5):
+        for y in (0.5, naxis2 + 0.5):
+            wl, wb = w.wcs_pix2world(np.array([[x, y]]), 1)[0]
+            wl, wb = math.radians(wl), math.radians(wb)
+            ex = max(lon_min - wl, wl - lon_max, lat_min - wb, wb - lat_max)
+            if ex > worst[0]:
+                worst = (ex, (x, y, wl, wb))
+    # the same image through the model, to validate the affine stand-in against astropy
+    return worst[0], (lon_min, lon_max, lat_min, lat_max), worst[1]
+
+
+SIG_BOUNDS = "samplers.py:WcsSampler._image_bounds:refined-grid-misses-the-extreme"
+SIZES = {"quick": [(n1, n2, ang) for (n1, n2) in [(1, 1), (2, 2), (2, 40), (31, 31), (32, 32), (33, 64), (5, 17), (64, 3), (100, 100)] for ang in (0, 90)] +
+                  [(2, 2, 37), (31, 31, 37), (32, 32, 37), (33, 64, 37)],
+         "thorough": [(n1, n2, ang) for n1 in (1, 2, 3, 7, 16, 30, 31, 32, 33, 47, 63, 64, 100, 257, 1000) for n2 in (1, 2, 31, 32, 33, 100, 1000) for ang in (0, 90, 180, 270, 37, 23, 127, 323, 209)]}
+
+
+def job_bounds(run, sizes):
+    t0 = time.time()
+    stats = {}
+    bad = []
+    npaths = 0
+    for (n1, n2, ang) in sizes:
+        for ctx, out in symx.explore(harness_bounds(n1, n2, ang), stats=stats, max_paths=400, timeout_ms=120000, seed=run.seed):
+            npaths += 1
+            if not isinstance(out, tuple):
+                run.ob("image-bounds[%dx%d,%d deg].path" % (n1, n2, ang), "inconclusive", "E2:symx", "exploration ended with %r" % (out,))
+                continue
+            r, cex = out
+            if r == "sat":
+                bad.append(((n1, n2), cex))
+                break
+            if r != "unsat":
+                run.ob("image-bounds[%dx%d,%d deg].path" % (n1, n2, ang), "inconclusive", "E2:symx", "solver %s" % r)
+    reported = set()
+    for (n1, n2), co in bad:
+        ex, bounds, corner = bounds_replay(n1, n2, co)
+        nm = "image-bounds[%dx%d]" % (n1, n2)
+        if ex > 1e-9:
+            small = "small" if min(n1, n2) <= 31 else "large"
+            sig = SIG_BOUNDS + ":" + small
+            what = ("%dx%d image with the plate-carree WCS CD=[[%.6g, %.6g], [%.6g, %.6g]] deg/pixel at (%.6g, %.6g): the footprint corner at pixel (%.1f, %.1f) = (lon %.9f, lat %.9f) rad lies %.3g rad outside "
+                    "the box %r returned by WcsSampler._image_bounds(), so the tile filter built from it can drop tiles holding image data" % (
+                        n1, n2, co[0], co[1], co[3], co[4], co[2], co[5], corner[0], corner[1], corner[2], corner[3], ex, bounds))
+            text = ("# real WcsSampler._image_bounds with a real astropy CAR WCS\nimport sys\nsys.path.insert(0, %r)\nimport props.C07 as P\nex, bounds, corner = P.bounds_replay(%d, %d, %r)\n"
+                    "print('bounds', bounds, 'corner', corner, 'outside by', ex)\nsys.exit(1 if ex > 1e-9 else 0)\n") % (core.VERIF, n1, n2, co)
+            if sig in reported:
+                run.ob(nm, "violated", "E2:symx", what)
+                continue
+            reported.add(sig)
+            run.violation(nm, sig, what, text, "E2:symx")
+        else:
+            run.error(nm, "symbolic counterexample %r does not reproduce with the real astropy WCS (excess %.3g)" % (co, ex))
+    if not bad:
+        run.ob("image-bounds%r" % (sizes,), "unsat", "E2:symx", "(width, height, rotation) %r, plate-carree WCS with symbolic scales (both signs) and reference values: the box returned by _image_bounds contains the four footprint corners "
+               "(hence, the map being affine, the whole footprint); %d paths, %.0fs" % (sizes, npaths, time.time() - t0), queries=stats.get("queries", 0), solver_s=stats.get("solver_s", 0.0))
+    else:
+        run.queries += stats.get("queries", 0)
+        run.solver_s += stats.get("solver_s", 0.0)
+
+
+def job_any(run, kind, *args):
+    {"tiles": job_tiles, "H": job_H, "chunks": job_chunks, "bounds": job_bounds}[kind](run, *args)
